@@ -91,6 +91,11 @@ func main() {
 			continue
 		}
 		run.runJob(j)
+		if len(run.confirmed) > 0 && os.Getenv("VCHECK_ALLJOBS") == "" {
+			// a confirmed violation decides the verdict; the remaining jobs would only add time
+			fmt.Printf("(remaining jobs skipped after a confirmed violation)\n")
+			break
+		}
 	}
 	code := run.finish(time.Since(t0))
 	if os.Getenv("VCHECK_KEEP") == "" {
